@@ -26,7 +26,8 @@ def run(tier, seed, replay_file=None):
     chk = gv.Check(PROP, tier, seed, level="proof")
     base.load_known_fallback(chk, PROP)
     proof = gv.proof_status(PROP, REQ_PROPS)
-    ncases = 300 if tier == "quick" else 3000
+    # quick: 300 histories on the pinned tree, up to 1200 when /repo has moved; thorough: 3000
+    ncases = gv.scaled(PROP, tier, 300, 1200, chk) if tier == "quick" else 3000
     ok, out, binp = gv.cargo_build("c01")
     if not ok:
         chk.violation("build", {"what": "the harness no longer builds against /repo's working tree", "log": out[-3000:],
@@ -49,7 +50,7 @@ def run(tier, seed, replay_file=None):
     checked = 0
     lists, kvals = [], []
     for c, v in zip(cases, vals):
-        m = re.match(r"\((true|false), (\[.*?\]), (\d+), (\[.*\])\)$", v)
+        m = re.match(r"\((true|false), (\[.*?\]), (\d+), (\[[a-z; ]*\]), (\[[0-9; ]*\])\)$", v)
         if not m:
             raise RuntimeError("unexpected oracle value: %s" % v[:200])
         c["coq"] = m.group(1)       # the evaluated correspondence term (gv.standard_flow re-reads the literal)
@@ -57,13 +58,25 @@ def run(tier, seed, replay_file=None):
         c["checked_tx"] = int(m.group(3))
         checked += c["checked_tx"]
         kvals.append(dict(zip([1, 2, 4, 5], base.parse_bools(m.group(4)))))
+        c["ctl_fails"] = [int(x) for x in re.findall(r"\d+", m.group(5))]
     extra = base.derive_failures(cases, lists, kvals, CLASSES, "atomic_ok (dump pair)")
+    # transaction control (Run.v ctl_fails): a Begin / Commit / Rollback whose outcome is not the state machine's is
+    # a failure no finding explains
+    for c in cases:
+        if c["ctl_fails"]:
+            c["oracle"] = "na"
+            extra.append({"k": c["k"], "in": c["in"], "impl": c["impl"], "oracle": "fail", "nt": False,
+                          "msg": "transaction control: the Begin / Commit / Rollback at step(s) %s of this history did not return the "
+                                 "outcome of the transaction state machine (second_end_is_error, tx_control_follows_spec)"
+                                 % ", ".join(str(x) for x in c["ctl_fails"][:6]),
+                          "tags": ["oracle-fail:ctl"]})
     for c in cases:
         if c["checked_tx"] == 0 and c["oracle"] == "ok":
             c["oracle"] = "na"
     gv.standard_flow(chk, REQ_RUN, cases + extra, proof, "C02")
     chk.coverage["evaluations"] = len(cases)
     chk.coverage["transactions_checked"] = checked
+    chk.coverage["tx_control_outcomes_wrong"] = sum(1 for c in cases if c.get("ctl_fails"))
     chk.coverage["histories_atomic_ok"] = sum(1 for c in cases if c["oracle"] == "ok")
     chk.coverage["histories_nontrivial_atomic_ok"] = sum(1 for c in cases if c["oracle"] == "ok" and c.get("nt"))
     chk.coverage["histories_with_failures"] = sum(1 for c in cases if c.get("fails"))
